@@ -38,6 +38,7 @@ func setup() {
 	coreimport.Import(fs)
 	phttpimport.Import(fs)
 	grpcimport.Import(fs)
+	registerProbes()
 	loadRegistry()
 	setupEnv()
 	// constructors create files named by the configs (answ.log …): keep them in the scratch directory
